@@ -194,12 +194,12 @@ impl Commands {
             None => name,
         };
 
-        match self.commands.remove(command_name) {
-            Some(command) => {
-                let aliases = command.aliases();
-                for alias in &aliases {
-                    self.aliases.remove(alias);
-                }
+        let command_name = command_name.to_string();
+
+        match self.commands.remove(&command_name) {
+            Some(_) => {
+                // remove exactly the aliases which point to the removed command
+                self.aliases.retain(|_, target| *target != command_name);
 
                 true
             }
